@@ -153,6 +153,32 @@ PROPS = {
         "not_decided": ["from_compact_bits: consumed bits = compact encoding of the result (only typing/totality proved)", "prune: tags/leaf data preserved, two-step = one-step (only typing/totality proved)", "iter_padded adaptor"],
         "explanation": "",
     },
+    "C12": {
+        "units": ["value"],
+        "functions": {"value": ["Finalizer1::convert_witness", "Finalizer2::convert_witness", "DecodeFinalizer::convert_witness",
+                                "Value::zero", "Value::prune", "Value::from_compact_bits", "Value::from_padded_bits", "Value::shallow_clone",
+                                "Value::left", "Value::right", "Value::product", "Value::unit", "Value::is_of_type", "final_eq",
+                                "lemma_same_trans", "lemma_same_sym", "lemma_same_width", "lemma_shape_same", "lemma_exec_bound",
+                                "lemma_wid", "lemma_wid2", "lemma_tmr_eq_same"]},
+        "kani": {"quick": [], "thorough": []},
+        "level": "proof",
+        "level_text": "Modular deductive proof (Verus) of the datatype invariant 'a witness stored in a redemption node has exactly the inferred target "
+                      "type of its node' at the places where a Value enters a redemption node: the convert_witness of every `impl Converter<_, Redeem>` "
+                      "(enumerated by a census of the repository: a new one is a lost anchor). Callee contracts used are themselves proved in the same unit: "
+                      "Value::zero, Value::prune and Value::from_compact_bits return well-formed values of exactly the requested type and never panic. "
+                      "PARTIAL, with one KNOWN FINDING (D5): finalize_unpruned does not check a witness given at construction time.",
+        "level_note": "Assumed: the node/arrow/type-variable stand-ins (finalize() is an opaque deterministic function); in redeem.rs' prune Finalizer the three "
+                      "`expect`s are explicit assumptions (`.assumed()`): they rest on type inference and the interpreter, which are not under contract. Not decided: "
+                      "that Node::convert pairs the converted witness with the same arrow in convert_data; the human-readable witness map route (it feeds site 1); "
+                      "SimpleFinalizer is excluded by the property text.",
+        "assumptions": [
+            "arrow().target.finalize() is a deterministic function of the node (R8 stand-in)",
+            "redeem.rs prune Finalizer: re-inference succeeds, the witness is populated and prunable (its three `expect`s)",
+            "target types narrower than 2^56 bits",
+        ],
+        "not_decided": ["Node::convert's pairing of witness and arrow", "human-encoding witness map", "execution never writes a wrong width (interpreter)"],
+        "explanation": "",
+    },
 }
 
 NOT_APPLICABLE = [
